@@ -359,6 +359,8 @@ pub struct Core<I> {
     pub spin_count: u32,
     pub calls_poll: u32,
     pub calls_in_poll: u32,
+    /// called at the start of `start_send`, before anything is recorded: another thread may run here
+    pub op_hook: Option<Rc<dyn Fn(&'static str)>>,
     /// (op, number of choice points consumed when the call was made) for every call
     pub call_pos: Vec<(Op, u32)>,
     pub log: Rc<Log>,
@@ -389,6 +391,7 @@ impl<I> Core<I> {
             spin_count: 0,
             calls_poll: u32::MAX,
             calls_in_poll: 0,
+            op_hook: None,
             call_pos: Vec::new(),
             log,
         }
@@ -592,6 +595,10 @@ impl<S: ToMsg, I> Sink<S> for MockTransport<S, I> {
     }
 
     fn start_send(self: Pin<&mut Self>, item: S) -> Result<(), io::Error> {
+        let hook = self.core.borrow().op_hook.clone();
+        if let Some(h) = hook {
+            h("transport:start_send");
+        }
         let mut c = self.core.borrow_mut();
         let m = item.to_msg(c.log.t0);
         if c.faulty(Op::Send) {
